@@ -1,4 +1,4 @@
-package main
+package main_test
 
 // Independent reference implementation of ELECTRE III (textbook form):
 // concordance / discordance / credibility, distillation over index sets.
